@@ -1206,6 +1206,11 @@ class Interp(object):
             # inside an element closure of a symbolic-length comprehension: no path split on a
             # condition about the (bound) element index; both arms are evaluated and merged
             a, b = self.eval(e.body, env), self.eval(e.orelse, env)
+            if (a is None) != (b is None):
+                # `v if cond else None`: an optional number
+                v = to_num(b if a is None else a)
+                if v is not None:
+                    return SOpt(z3.Not(c) if b is None else c, v)
             za, zb = to_num(a), to_num(b)
             if za is None or zb is None:
                 raise Unsupported("conditional expression with non-numeric arms in a comprehension")
